@@ -469,6 +469,55 @@ func c04Accessor(c *Ctx, r *Report, an *Analysis, fr *Frame, m *ssa.Function, ca
 	r.instance("R4.3", 1)
 	nGetter, nDecode := 0, 0
 	var usedOrder *Aff
+	// an accessor whose getter takes no order (one register) may still select the order itself:
+	// a value of type ByteOrder in the function that equals the argument, or the default iff the
+	// argument is 0, is the order in force
+	if orderParam != nil {
+		for _, b := range m.Blocks {
+			for _, in := range b.Instrs {
+				ph, ok := in.(*ssa.Phi)
+				if !ok {
+					break
+				}
+				if named, ok := ph.Type().(*types.Named); !ok || named.Obj().Name() != "ByteOrder" {
+					continue
+				}
+				if ai, ok := fr.vals[ph].(AInt); ok {
+					st := fr.blockIn[b.Index]
+					s0 := dnfAnd(st, DNF{Conj{atomEQ(*orderParam, affConst(0))}})
+					s1 := dnfAnd(st, DNF{Conj{atomNE(*orderParam, affConst(0))}})
+					// the phi's binding is in the states of the blocks it dominates; test there
+					for _, b2 := range m.Blocks {
+						if b != b2 && b.Dominates(b2) && len(fr.blockIn[b2.Index]) > 0 {
+							s0 = dnfAnd(fr.blockIn[b2.Index], DNF{Conj{atomEQ(*orderParam, affConst(0))}})
+							s1 = dnfAnd(fr.blockIn[b2.Index], DNF{Conj{atomNE(*orderParam, affConst(0))}})
+							break
+						}
+					}
+					if s0.entails(atomEQ(ai.a, *defOrder)) && s1.entails(atomEQ(ai.a, *orderParam)) {
+						o := ai.a
+						usedOrder = &o
+					}
+				}
+			}
+		}
+	}
+	// delegation to another accessor of the same type and width (e.g. the signed variant converting
+	// the unsigned one): the delegate is examined on its own
+	var delegate *c04Call
+	for i := range calls {
+		cl := &calls[i]
+		if cl.f != fr || cl.callee == nil || cl.callee == m || isRawGetter(cl.callee) || cl.callee.Signature.Recv() == nil {
+			continue
+		}
+		if !types.Identical(deref(cl.callee.Signature.Recv().Type()), deref(m.Signature.Recv().Type())) {
+			continue
+		}
+		cres := cl.callee.Signature.Results()
+		if cres.Len() == 2 && isErrorType(cres.At(1).Type()) && resultBytes(cres.At(0).Type()) == want {
+			delegate = cl
+		}
+	}
 	for _, cl := range calls {
 		if cl.f != fr {
 			continue
@@ -569,6 +618,19 @@ func c04Accessor(c *Ctx, r *Report, an *Analysis, fr *Frame, m *ssa.Function, ca
 			r.fail("R4.3", id, fmt.Sprintf("binary.%s decode is not tied to the LittleEndian flag of the order in force", map[bool]string{true: "LittleEndian", false: "BigEndian"}[little]), pos,
 				"state: "+truncate(cl.state.String(), 300), fmt.Sprintf("endianness:little=%v", little))
 		}
+	}
+	if nGetter == 0 && nDecode == 0 && delegate != nil {
+		// arguments: the receiver's window, the address and (if both take one) the order, unchanged
+		okArgs := len(delegate.args) >= 2 && describeAV(delegate.args[1]) == describeAV(fr.vals[m.Params[1]])
+		if okArgs && len(delegate.args) >= 3 && len(m.Params) >= 3 {
+			okArgs = describeAV(delegate.args[2]) == describeAV(fr.vals[m.Params[2]])
+		}
+		if okArgs {
+			r.ok("R4.3", id, "delegates to "+delegate.callee.Name()+" (same width) with the address and order unchanged", c.pos(delegate.pos), true)
+		} else {
+			r.fail("R4.3", id, "delegates to "+delegate.callee.Name()+" with a changed address or order", c.pos(delegate.pos), describeAV(ATuple(delegate.args)), "delegate-args")
+		}
+		return
 	}
 	if nGetter == 1 && nDecode == 0 && want <= 4 {
 		// hand-written composition of the bytes (shifts and ORs): decided on the value returned
